@@ -277,11 +277,18 @@ theorem sum_map_fst_map (l : List Nat) : sum ((l.map (fun n => (n, true))).map (
   | nil => rfl
   | cons a t ih => simp [sum] at ih ⊢; exact ih
 
+theorem sum_map_fst_map' (l : List Nat) : sum ((l.map (fun n => (n, true))).map (·.1)) = sum l :=
+  sum_map_fst_map l
+
 theorem errorOut_wf (F : Facts13) (req : Req) (preset : Option Nat) (fc : FaultClass)
-    (h : F.closeTiming = .afterBody) : (errorOut F req preset fc).WF := by
+    (h : F.closeTiming = .afterBody) (he : F.errorEventBeforeLength = true) :
+    (errorOut F req preset fc).WF := by
   refine ⟨⟨h, ?_, ?_⟩, rfl⟩
-  · intro c hc; simp at hc; subst hc; rfl
-  · intro n hn; simp at hn; subst hn; simp [sum]
+  · intro c hc; simp at hc; obtain ⟨a, _, rfl⟩ := hc; rfl
+  · intro n hn
+    simp only [errLen, he, if_true, Option.some.injEq] at hn
+    subst hn
+    exact (sum_map_fst_map _).symm
 
 theorem successOut_wf (F : Facts13) (cfg : Cfg) (r : Resp)
     (h : F.closeTiming = .afterBody) (hj : F.joinKind = .bytes) : (successOut F cfg r).WF := by
@@ -299,31 +306,39 @@ theorem successOut_wf (F : Facts13) (cfg : Cfg) (r : Resp)
     · intro c hc; simp at hc; subst hc; rfl
     · intro n hn; simp at hn; subst hn; simp [sum]
 
+theorem withReturnListener_wf (F : Facts13) (cfg : Cfg) (req : Req) (r : Resp)
+    (h : F.closeTiming = .afterBody) (hj : F.joinKind = .bytes) (hr : F.returnEventBeforeLength = true) :
+    (withReturnListener F cfg req r).WF := by
+  unfold withReturnListener
+  split
+  · exact successOut_wf _ _ _ h hj
+  · simp only [hr, if_true]; exact successOut_wf _ _ _ h hj
+
 theorem afterUser_wf (F : Facts13) (cfg : Cfg) (req : Req) (r : Resp) (hF : F.Good) :
     (afterUser F cfg req r).WF := by
-  obtain ⟨h1, _, h3, _, h5, _⟩ := id hF
+  obtain ⟨h1, _, h3, _, h5, _, h7, h8⟩ := id hF
   have hc : (if r.serializeFails then
         errorOut F req (if F.lateErrorKeepsOkStatus then some (r.preset.getD F.okStatus) else r.preset) .server
-      else successOut F cfg r).WF := by
+      else withReturnListener F cfg req r).WF := by
     split
-    · exact errorOut_wf _ _ _ _ h1
-    · exact successOut_wf _ _ _ h1 h3
+    · exact errorOut_wf _ _ _ _ h1 h8
+    · exact withReturnListener_wf _ _ _ _ h1 h3 h7
   unfold afterUser
   simp only [h5, if_true]
   split
   · exact hc
   · exact hc
   · exact hc
-  · exact errorOut_wf _ _ _ _ h1
+  · exact errorOut_wf _ _ _ _ h1 h8
 
 theorem intendedResult_wf (F : Facts13) (cfg : Cfg) (req : Req) (hF : F.Good) :
     (intendedResult F cfg req).2.WF := by
   unfold intendedResult
   split
-  · exact errorOut_wf _ _ _ _ hF.1
-  · exact errorOut_wf _ _ _ _ hF.1
-  · exact errorOut_wf _ _ _ _ hF.1
-  · exact errorOut_wf _ _ _ _ hF.1
+  · exact errorOut_wf _ _ _ _ hF.1 hF.2.2.2.2.2.2.2
+  · exact errorOut_wf _ _ _ _ hF.1 hF.2.2.2.2.2.2.2
+  · exact errorOut_wf _ _ _ _ hF.1 hF.2.2.2.2.2.2.2
+  · exact errorOut_wf _ _ _ _ hF.1 hF.2.2.2.2.2.2.2
   · exact afterUser_wf _ _ _ _ hF
 
 /-- with the good facts every request is answered: no exception escapes, and the answer is
@@ -331,21 +346,21 @@ theorem intendedResult_wf (F : Facts13) (cfg : Cfg) (req : Req) (hF : F.Good) :
 theorem process_wf (F : Facts13) (cfg : Cfg) (req : Req) (stream : List Nat) (hF : F.Good) :
     (process F cfg req stream).2.WF := by
   have h1 := hF.1
-  obtain ⟨_, _, _, h4, _, h6⟩ := id hF
+  obtain ⟨_, _, _, h4, _, h6, _, h8⟩ := id hF
   unfold process
   split
-  · exact errorOut_wf _ _ _ _ h1
+  · exact errorOut_wf _ _ _ _ h1 h8
   · split
     · exact intendedResult_wf _ _ _ hF
     · simp only
       split
-      · rw [h4]; exact errorOut_wf _ _ _ _ h1
-      · exact errorOut_wf _ _ _ _ h1
+      · rw [h4]; exact errorOut_wf _ _ _ _ h1 h8
+      · exact errorOut_wf _ _ _ _ h1 h8
       · simp only [h6, Bool.not_true, Bool.and_false, Bool.false_eq_true, if_false]
         split
-        · exact errorOut_wf _ _ _ _ h1
+        · exact errorOut_wf _ _ _ _ h1 h8
         · split
-          · exact errorOut_wf _ _ _ _ h1
+          · exact errorOut_wf _ _ _ _ h1 h8
           · exact intendedResult_wf _ _ _ hF
 
 /-! ### the events in front of the response -/
@@ -847,14 +862,20 @@ theorem reads_ok (F : Facts13) (cfg : Cfg) (req : Req) (stream : List Nat) (abor
 /-! ### Content-Length when not chunked -/
 
 theorem errorOut_cl (F : Facts13) (req : Req) (p : Option Nat) (fc : FaultClass) :
-    ∃ o, errorOut F req p fc = .out o ∧ o.cl = some req.faultLen := ⟨_, rfl, rfl⟩
+    ∃ o, errorOut F req p fc = .out o ∧ o.cl = some (errLen F req) := ⟨_, rfl, rfl⟩
 
 theorem process_unchunked_cl (F : Facts13) (cfg : Cfg) (req : Req) (stream : List Nat) (o : Out)
     (hF : F.Good) (hc : cfg.chunked = false) (ho : (process F cfg req stream).2 = .out o) :
     ∃ n, o.cl = some n := by
-  obtain ⟨_, _, h3, h4, h5, h6⟩ := id hF
-  have hs : ∀ r o, successOut F cfg r = .out o → ∃ n, o.cl = some n := by
+  obtain ⟨_, _, h3, h4, h5, h6, h7, _⟩ := id hF
+  have hs0 : ∀ r o, successOut F cfg r = .out o → ∃ n, o.cl = some n := by
     intro r o h; simp [successOut, hc, h3] at h; subst h; exact ⟨_, rfl⟩
+  have hs : ∀ r o, withReturnListener F cfg req r = .out o → ∃ n, o.cl = some n := by
+    intro r o h
+    unfold withReturnListener at h
+    split at h
+    · exact hs0 _ _ h
+    · simp only [h7, if_true] at h; exact hs0 _ _ h
   have he : ∀ p fc o, errorOut F req p fc = .out o → ∃ n, o.cl = some n := by
     intro p fc o h; simp [errorOut] at h; subst h; exact ⟨_, rfl⟩
   have ha : ∀ r o, afterUser F cfg req r = .out o → ∃ n, o.cl = some n := by
@@ -925,19 +946,41 @@ theorem process_status (F : Facts13) (cfg : Cfg) (req : Req) (stream : List Nat)
     · rename_i r hint
       have hpr : ∀ x, r.preset = some x → x ∈ req.presets := by
         intro x hx; simp [Req.presets, hint, hx]
-      have hs : ∀ o, successOut F cfg r = .out o → StatusSource F req o.status := by
-        intro o h
+      have hs0 : ∀ (r' : Resp) o, (∀ x, r'.preset = some x → x ∈ req.presets) →
+          successOut F cfg r' = .out o → StatusSource F req o.status := by
+        intro r' o hpr' h
         unfold successOut at h
         split at h
-        · simp at h; subst h; exact hp _ _ hpr hok
+        · simp at h; subst h; exact hp _ _ hpr' hok
         · split at h
-          · simp at h; subst h; exact hp _ _ hpr hok
+          · simp at h; subst h; exact hp _ _ hpr' hok
           · split at h
-            · simp at h; subst h; exact hp _ _ hpr hok
+            · simp at h; subst h; exact hp _ _ hpr' hok
             · cases h
+      have hs : ∀ o, withReturnListener F cfg req r = .out o → StatusSource F req o.status := by
+        intro o h
+        unfold withReturnListener at h
+        cases hr : req.onReturn with
+        | none => rw [hr] at h; exact hs0 r o hpr h
+        | some w =>
+          rw [hr] at h
+          simp only at h
+          cases hb : F.returnEventBeforeLength with
+          | true =>
+            rw [hb] at h; simp only [if_true] at h
+            exact hs0 { r with chunks := w.chunks, sized := w.sized } o hpr h
+          | false =>
+            rw [hb] at h
+            simp only [Bool.false_eq_true, if_false] at h
+            cases ho' : successOut F cfg r with
+            | crash c => rw [ho'] at h; cases h
+            | out o' =>
+              rw [ho'] at h
+              simp only [Result.out.injEq] at h; subst h
+              exact hs0 r o' hpr ho'
       have hc : ∀ o, (if r.serializeFails then
             errorOut F req (if F.lateErrorKeepsOkStatus then some (r.preset.getD F.okStatus) else r.preset) .server
-          else successOut F cfg r) = .out o → StatusSource F req o.status := by
+          else withReturnListener F cfg req r) = .out o → StatusSource F req o.status := by
         intro o h
         split at h
         · simp only [errorOut, Result.out.injEq] at h; subst h
